@@ -178,6 +178,22 @@ static void scalar_classes(vh_rng* r) {
     copy_assign("ref", r1, new(Ref), "Ref");
     var arr = new(Array, Ref, r1);
     equal_pair("ref", r1, get(arr, $I(0)), "Ref on the heap and embedded in an Array");
+    /* a Ref that refers to nothing is a value like any other: its copies and everything assigned from it refer to
+       nothing too, wherever the source object lives (stack, heap, container slot) */
+    {
+      var n1 = new(Ref), n2 = $R(NULL);          /* (a Ref constructed without argument refers to nothing) */
+      equal_pair("ref", n1, n2, "two Refs to nothing (heap / stack)");
+      copy_assign("ref", n1, new(Ref, target), "Ref to nothing");
+      copy_assign("ref", n2, new(Ref), "stack Ref to nothing");
+      var a0 = new(Array, Ref), a1 = new(Array, Ref), l0 = new(List, Ref);
+      push(a0, $R(NULL)); push(a0, r1); push(a1, n1); push(a1, r2); push(l0, $R(NULL)); push(l0, r1);
+      equal_pair("ref", a0, a1, "Arrays [nothing, target] built from different Ref objects");
+      equal_pair("ref", a0, l0, "Array and List [nothing, target]");
+      vh_eval();
+      if (deref(get(a0, $I(0))) != NULL || deref(get(l0, $I(0))) != NULL) { vh_violation(K("ref", "copy-of-a-ref-to-nothing-refers-to-something"), "a Ref to nothing pushed into a container refers to %p", deref(get(a0, $I(0)))); }
+      vh_count("refs_to_nothing_copied");
+      keep_alive(a0); keep_alive(a1); keep_alive(l0); keep_alive(n1);
+    }
     struct Pt pv = { vh_range(r, -9, 9), (int64_t)vh_next(r) };
     var p1 = $(Pt, pv.x, pv.y); var p2 = new(Pt); memcpy(p2, &pv, sizeof pv);
     var parr = new(Array, Pt, p1);
